@@ -1,13 +1,19 @@
 # executed by gen_manifest.py; one check(...) call per claimed property
 
-check('C03', 'E1', 'model_checking',
-      'explicit-state model checking of the real Manager/AsyncManager',
+check('C03', 'E1+E2', 'model_checking',
+      'explicit-state model checking of the real Manager/AsyncManager plus '
+      'stateless exploration of all asyncio interleavings of an emit with '
+      'membership changes',
       'Every reachable room-table state for 2-3 transports x 2 namespaces x '
       '1-2 room names (plus a room named after a session id) is reached by '
       'BFS over real operation histories; at every state every '
       'emit(to, skip_sid, namespace) combination and rooms() are compared '
       'with a dict/set reference. Closure is reached, so within the bound '
-      'the claim is exhaustive.',
+      'the claim is exhaustive. E2: one AsyncServer emit (room, list of '
+      'rooms, broadcast, skip_sid, binary) against concurrent enter+leave / '
+      'leave / close_room / disconnect with every transport write a '
+      'suspension point; the delivered set must equal the eligible set of '
+      'one instant of the emit, each recipient exactly once.',
       'engine.io sockets, bidict trusted; small-scope (<=3 clients, 2 '
       'namespaces, 2 rooms); canonical state identifies clients by slot.',
       'DESIGN.md 6/C03')
@@ -41,9 +47,10 @@ check('C04', 'E1+E2', 'model_checking',
       'capped.',
       'DESIGN.md 6/C04')
 
-check('C05', 'E1', 'model_checking',
+check('C05', 'E1+E2', 'model_checking',
       'explicit-state BFS over event/connection histories with a dispatch/'
-      'ACK ledger',
+      'ACK ledger, plus stateless exploration of all asyncio interleavings '
+      'of events racing disconnects',
       'All histories of connect / DISCONNECT / loss / binary header / '
       'attachment (separate operations, so other clients interleave between '
       'frames) for 2-3 transports x 2 namespaces are explored to closure in '
@@ -51,7 +58,10 @@ check('C05', 'E1', 'model_checking',
       'layout); at every state every text event of names x ids {None,0,1,7} '
       'x 14 return shapes is sent from every (transport, namespace) and the '
       'handler log plus the frames queued on ALL transports are compared '
-      'with the ledger.',
+      'with the ledger. E2: two clients on AsyncServer, packets taken up by '
+      'per-request tasks in arrival order, handlers suspended: events after '
+      'a client\'s DISCONNECT invoke nothing, events before are handled '
+      'and acknowledged once, whatever the other client does.',
       'engine.io trusted; background handler tasks joined before comparing; '
       'argument shapes rotate across the product.',
       'DESIGN.md 6/C05')
@@ -117,9 +127,11 @@ check('C16', 'E1', 'model_checking',
       'generations capped at 2 in the canonical state.',
       'DESIGN.md 6/C16')
 
-check('C11', 'E1', 'fault_enumeration',
+check('C11', 'E1+E2', 'fault_enumeration',
       'explicit-state BFS over client histories x ending causes x injected '
-      'handler faults, with a generic residue oracle',
+      'handler faults, with a generic residue oracle; plus stateless '
+      'exploration of all asyncio interleavings of a client\'s traffic with '
+      'disconnect()/transport loss',
       'Every client history up to depth 5 (quick) / 7 (thorough) over '
       '{connect accept/refuse/duplicate, event, enter_room, emit with '
       'unanswered callback, binary header / attachment, 6 malformed frames, '
@@ -129,7 +141,10 @@ check('C11', 'E1', 'fault_enumeration',
       'invocation raises" faults. After every step a generic walk of the '
       'server and manager __dict__s must not mention any ended transport or '
       'gone sid; with all transports gone it must equal the fresh server. A '
-      'two-point reachable-object count decides growth.',
+      'two-point reachable-object count decides growth. E2: 7 scenarios x '
+      'always_connect x handler outcome x transport writes suspended or '
+      'not, every interleaving at handler entry / write / arrival, ending '
+      'in the fresh-server comparison.',
       'engine.io internals excluded (dependency); depth-bounded (no '
       'closure); 2 transports, the second with a reduced alphabet.',
       'DESIGN.md 6/C11')
